@@ -158,6 +158,24 @@ struct ResaveOut {
 	bool isOB = false;
 };
 
+// Every reference slot of every block, in slot order, with the empty ones: the query battery sees the model through NifFile's
+// getters only, which skip empty slots, so a save that compacts a reference array in the live model (same bytes written,
+// slot -> reference mapping changed) is invisible to it.
+static uint64_t refSlotsDigest(NifFile& nif) {
+	Hash64 h;
+	auto& hdr = nif.GetHeader();
+	uint32_t nb = hdr.GetNumBlocks();
+	for (uint32_t i = 0; i < nb && i < 2000; i++) {
+		auto o = hdr.GetBlock<NiObject>(i);
+		if (!o) { h.i(-2); continue; }
+		std::vector<uint32_t> idx;
+		o->GetChildIndices(idx);
+		h.i((long long) idx.size());
+		for (auto v : idx) h.i((long long) v);
+	}
+	return h.h;
+}
+
 static ResaveOut resaveHistory(const json& plan, Ctx& ctx, bool withFault, bool* initOk) {
 	ResaveOut out;
 	auto nif = std::make_unique<NifFile>();
@@ -175,10 +193,12 @@ static ResaveOut resaveHistory(const json& plan, Ctx& ctx, bool withFault, bool*
 	setStage("Q0");
 	out.qt.emplace_back();
 	out.q.push_back(queries && !saveFirst ? batteryDigest(*nif, ctx, salt, &out.qt.back(), false) : 0);
+	if (queries && !saveFirst) { uint64_t r = refSlotsDigest(*nif); out.qt.back().push_back({"reference slots of every block (with the empty ones)", r}); out.q.back() ^= r * 0x9E3779B97F4A7C15ull; }
 	if (queries && !saveFirst) {
 		// the getters themselves fill caches; a second pass before any save tells their effect from the save's
 		BatteryTrace t2;
 		uint64_t again = batteryDigest(*nif, ctx, salt, &t2, false);
+		{ uint64_t r = refSlotsDigest(*nif); t2.push_back({"reference slots of every block (with the empty ones)", r}); again ^= r * 0x9E3779B97F4A7C15ull; }
 		if (again != out.q[0]) {
 			ctx.probe("getters_changed_answers_without_save");
 			out.q[0] = again;
@@ -205,6 +225,7 @@ static ResaveOut resaveHistory(const json& plan, Ctx& ctx, bool withFault, bool*
 		// extra getters between saves: several of them fill caches
 		out.qt.emplace_back();
 		out.q.push_back(queries ? batteryDigest(*nif, ctx, salt, &out.qt.back(), false) : 0);
+		if (queries) { uint64_t r = refSlotsDigest(*nif); out.qt.back().push_back({"reference slots of every block (with the empty ones)", r}); out.q.back() ^= r * 0x9E3779B97F4A7C15ull; }
 		ctx.steps++;
 	}
 	setStage("dtor");
